@@ -1985,7 +1985,7 @@ pub fn run_property(ctx: &mut Ctx) {
             suite_expr(ctx, "expr", k(1500, 60000));
             suite_ladders(ctx, "ladders", k(1200, 30000));
             suite_text_valid(ctx, "text-valid", k(800, 40000));
-            suite_run(ctx, "run", k(500, 20000));
+            suite_run(ctx, "run", k(1500, 40000));
         }
         "C09" => {
             suite_text_enum(ctx, "text-enum", if ctx.tier == "thorough" { 4 } else { 3 });
